@@ -21,12 +21,14 @@ Definition first_mod_in (ms : list (Z * modif)) (lg : list logitem) : option val
 Definition last_mod_out (ms : list (Z * modif)) (lg : list logitem) : option value :=
   match rev ms with (id, _) :: _ => option_map (fun x => snd (fst x)) (find_mod id lg) | [] => None end.
 
+(* rw_condless: no explicit or implicit condition, so the state is re-derived from the value *)
 Record row := mkRow { rw_input : input; rw_read : value; rw_value : value; rw_res : list res; rw_own : state; rw_condless : bool }.
 (* evaluated inputs of an action in this frame (suppressed ones leave no log entry); needs a modifier on every input *)
 Definition rows_of (b : abind) (lg : list logitem) : list row :=
   flat_map (fun ib =>
     match first_mod_in (ib_mods ib) lg, last_mod_out (ib_mods ib) lg, results_of (ib_conds ib) lg with
-    | Some rd, Some v, Some rs => [mkRow (ib_input ib) rd v rs (law rs v) (match ib_conds ib with [] => true | _ => false end)]
+    | Some rd, Some v, Some rs => [mkRow (ib_input ib) rd v rs (law rs v)
+                                (forallb (fun ic => match cond_kind (snd ic) with KBlocker _ => true | _ => false end) (ib_conds ib))]
     | _, _, _ => []
     end) (ab_inputs b).
 Definition max_state (rows : list row) : state := fold_left (fun acc r => state_max acc (rw_own r)) rows SNone.
@@ -47,17 +49,17 @@ Definition merged_value (d : dim) (mode : accumulation) (rows : list row) : valu
   | [] => vzero d
   | r :: rest => fold_left (fun acc x => acc_step d mode acc (rw_value x)) rest (convert d (rw_value r))
   end.
-(* the corner the properties exclude: condition-less contributors whose partial merge is exactly zero
-   while a further contributor is still to be merged *)
-Fixpoint regular_from (d : dim) (mode : accumulation) (acc : value) (all_condless : bool) (rest : list row) : bool :=
+(* the corner the properties exclude: when a further active input is about to be merged, the inputs
+   merged so far that hold the most significant state are all condition-less and their merged value
+   is exactly zero in the action's dimension (cancelled or truncated) *)
+Fixpoint prefixes_ok (d : dim) (mode : accumulation) (seen rest : list row) : bool :=
   match rest with
   | [] => true
   | x :: more =>
-      negb (all_condless && negb (as_bool acc)) &&
-      regular_from d mode (acc_step d mode acc (rw_value x)) (all_condless && rw_condless x) more
+      (match seen with
+       | [] => true
+       | _ => let c := contributing seen in negb (forallb rw_condless c && negb (as_bool (merged_value d mode c)))
+       end) && prefixes_ok d mode (seen ++ [x]) more
   end.
 Definition regular (d : dim) (mode : accumulation) (rows : list row) : bool :=
-  match rows with
-  | [] => true
-  | r :: rest => regular_from d mode (convert d (rw_value r)) (rw_condless r) rest
-  end.
+  prefixes_ok d mode [] (filter (fun r => negb (state_eqb (rw_own r) SNone)) rows).
